@@ -360,7 +360,7 @@ func main() {
 			}
 			if k%2 == 0 && !hasPropVar(q) {
 				// (a property variable would also meet the observing rule itself, which is a fact of the location)
-				condition(r, loc, q, want, wit)
+				condition(r, loc, q, want, wit, leafRepeated(q) && hasArray)
 			}
 		}
 	}
@@ -370,7 +370,7 @@ func main() {
 
 // condition evaluates q as the condition of a rule and reads the bindings that
 // reach the action nodes.
-func condition(r *rep.Report, loc *core.Location, q ref.Q, want []string, wit func(interface{}, error) rep.J) {
+func condition(r *rep.Report, loc *core.Location, q ref.Q, want []string, wit func(interface{}, error) rep.J, repeatedOverArrays bool) {
 	rule := core.Map{"when": map[string]interface{}{"pattern": map[string]interface{}{"go": "now"}},
 		"condition": ref.Clone(q), "action": map[string]interface{}{"code": "1"}}
 	if _, err := loc.AddRule(drv.Ctx(), "cond-rule", rule); err != nil {
@@ -405,6 +405,12 @@ func condition(r *rep.Report, loc *core.Location, q ref.Q, want []string, wit fu
 	}
 	g := ref.Multiset(got)
 	if !ref.SameSet(g, want) {
+		if repeatedOverArrays {
+			// The matcher's answer for such a leaf varies from call to call (C05), so
+			// the Query above and this evaluation can disagree with each other, too.
+			r.Violate("c03.repeated-var-structured", "condition differs only where a repeated variable meets array values (see C05)", wit(g, nil))
+			return
+		}
 		r.Violate("", "bindings reaching the actions differ from the reference evaluation of the condition", wit(g, nil))
 	}
 }
